@@ -61,12 +61,12 @@ def gen_dag(rng, n, shape):
 
 def gen(rng, tier):
     n_cases = 1500 if tier == "quick" else 60000
-    cases = [{"log": []}, {"log": [[7, []]]}, {"log": [[2, [1, 1]], [1, []]]}]
+    cases = [{"log": []}, {"log": [[7, []]]}, {"log": [[2, [1, 1]], [1, []]]}, {"log": [[2, [1]], [1, [0]], [0, []]]}]
     shapes = ["linear", "forks", "merges", "roots", "components", "mixed"]
     for k in range(n_cases):
         n = rng.choice([1, 2, 3, 4, 5, 8, 13, 25, 40]) if tier == "quick" else rng.randrange(0, 60)
         dag = gen_dag(rng, n, shapes[k % len(shapes)])
-        relabel = list(range(1, 3 * n + 2))
+        relabel = list(range(0, 3 * n + 2))      # 0 included: a falsy id is an id like any other
         rng.shuffle(relabel)
         dag = [[relabel[i], [relabel[p] for p in ps]] for i, ps in dag]
         for _ in range(2):
